@@ -123,7 +123,13 @@ def judge_bitmaps(run, job):
                           {"kind": "bitmap", "pattern": p, "form": form, "extglob": ext, "nocase": nocase, "strings": strs[:40],
                            "brush": b, "bash": h, "crash": ck1, "stderr": core.txt(r1.err[-400:])})
             continue
-        k = next(j for j in range(len(strs)) if b[j] != h[j])
+        diffs = [j for j in range(len(strs)) if b[j] != h[j]]
+        if pb is not None and all(pb[j] == b[j] for j in diffs):
+            # the two references disagree with each other exactly where brush differs from bash, and brush sides with the matcher
+            # written from the definition (e.g. `*@(*)` against the empty string: bash 5.2 says no match): not judged
+            run.count("oracle_ambiguous_bash_vs_definitional_matcher")
+            continue
+        k = next((j for j in diffs if pb is None or pb[j] != b[j]), diffs[0])
         sig = "C08|%s|%s|%s|%s" % (form, "ext" if ext else "noext", classify(p), "nl" if "\n" in strs[k] else "plain")
         cluster = None
         if "[:" in p and any(ord(ch) > 127 for ch in strs[k]):
@@ -300,6 +306,22 @@ def run(run):
     for k in range(0, len(rp), CH):
         jobs.append((rp[k:k + CH], rstrs, "case", True, False, "random"))
         jobs.append((rp[k:k + CH], rstrs, "dbracket", True, (k // CH) % 2 == 1, "random"))
+    # bracket expressions over hostile members: everything that means something to a regex engine but not to a shell pattern
+    bmem = ["a", "b", "-", "\\a", "\\d", "\\w", "\\-", "\\]", "\\\\", "&", "~", "^", "!", ".", "_", "[", "[:alpha:]", "[:digit:]", "a-c", "0-9", "+", ","]
+    bstrs = ["", "a", "b", "c", "d", "w", "5", "0", "-", "]", "[", "\\", "&", "~", "^", "!", ".", "_", "A", "é", ",", "+", " ", "\n", "ab", "a-"]
+    bpats = []
+    for n in (1, 2, 3):
+        for combo in itertools.product(bmem, repeat=n):
+            for neg in ("", "!", "^"):
+                for lead in ("", "]"):
+                    bpats.append("[" + neg + lead + "".join(combo) + "]")
+    # `[.` and `[=` open collating symbols / equivalence classes, `[:` a class: outside the statement unless it is a whole valid class
+    bpats = [p for p in bpats if not re.search(r"\[[.=:]", p[1:].replace("[:alpha:]", "").replace("[:digit:]", ""))]
+    bpats = [p for p in bpats if "-[:" not in p]        # a class as a range endpoint is unspecified (bash's answers follow no rule we could state)
+    rng.shuffle(bpats)
+    bpats = bpats[: int((3000 if quick else 64000) * scale)]
+    for k in range(0, len(bpats), CH):
+        jobs.append((bpats[k:k + CH], bstrs, "case", (k // CH) % 2 == 0, False, "bracket-members"))
     run.count("bitmap_jobs", len(jobs))
     core.pmap(lambda j: judge_bitmaps(run, j), jobs)
     # pathname expansion
